@@ -339,6 +339,7 @@ class Engine(object):
         CLOCK.timers = []
         GSHIM.spawned = []
         self.pending = []
+        self.reply_cache = {}
         self.counters = collections.Counter()
         self.in_flight = 0
         self.failures = []
@@ -615,6 +616,16 @@ class Engine(object):
                 m.open_attempts -= 1
         return self.apply_outcome(m, envelope, rcpts, spec or {})
 
+    def _reply(self, code, text, pos=0):
+        """With cfg['shared_replies'] the relay hands out the same Reply object whenever it reports the same reply (a relay that
+        keeps its error replies as constants): what the queue does to the reply of one message must not show in another's."""
+        if not self.cfg.get('shared_replies'):
+            return _built(code, text, pos)
+        key = (code, text, pos % 2)
+        if key not in self.reply_cache:
+            self.reply_cache[key] = _built(code, text, pos)
+        return self.reply_cache[key]
+
     def apply_outcome(self, m, envelope, rcpts, spec):
         shape = spec.get('shape', 'none')
         per = spec.get('per') or ['ok']
@@ -679,10 +690,10 @@ class Engine(object):
             return Reply('250', '2.0.0 accepted')
         if shape == 'raise_t':
             c, t = FAIL_REPLIES_TEMP[rsel[0] % NREP]
-            raise TransientRelayError('transient', Reply(c, t))
+            raise TransientRelayError('transient', self._reply(c, t))
         if shape == 'raise_p':
             c, t = FAIL_REPLIES_PERM[rsel[0] % NREP]
-            raise PermanentRelayError('permanent', Reply(c, t))
+            raise PermanentRelayError('permanent', self._reply(c, t))
         if shape == 'raise_x':
             raise RuntimeError('boom')
         vals = []
@@ -691,10 +702,10 @@ class Engine(object):
                 vals.append(None if k % 2 else Reply('250', '2.0.0 ok'))
             elif kind == 'perm':
                 c, t = FAIL_REPLIES_PERM[k % NREP]
-                vals.append(PermanentRelayError('perm', _built(c, t, pos)))
+                vals.append(PermanentRelayError('perm', self._reply(c, t, pos)))
             else:
                 c, t = FAIL_REPLIES_TEMP[k % NREP]
-                vals.append(TransientRelayError('temp', _built(c, t, pos)))
+                vals.append(TransientRelayError('temp', self._reply(c, t, pos)))
         if shape == 'seq':
             return vals
         return dict(zip(rcpts, vals))
